@@ -1378,6 +1378,14 @@ func (c *Ctx) checkConfigErrors(r *Report, cfg map[*ssa.Function]bool) {
 					return
 				}
 			}
+			// an observing call into package os (ReadDir, Stat, Lstat, ReadFile, Getwd) whose error is given up for a
+			// fallback changes nothing that was configured
+			if sc := call.Common().StaticCallee(); sc != nil && sc.Pkg != nil && sc.Pkg.Pkg.Path() == "os" && sc.Signature.Recv() == nil {
+				switch sc.Name() {
+				case "ReadDir", "Stat", "Lstat", "ReadFile", "Getwd", "Hostname", "UserHomeDir":
+					return
+				}
+			}
 			n++
 			used := false
 			if refs := call.Referrers(); refs != nil {
